@@ -905,7 +905,7 @@ func (fs *fileStore) iterate(outFields []core.Field, ms *memstore, okayToReuseBu
 	// Read remaining stuff from memstore
 	if ms != nil {
 		offsetsBySource = offsetsBySource.Advance(ms.offsetsBySource)
-		ms.tree.Walk(ctx, func(key []byte, msColumns []encoding.Sequence) (bool, bool, error) {
+		walkErr := ms.tree.Walk(ctx, func(key []byte, msColumns []encoding.Sequence) (bool, bool, error) {
 			columns := make([]encoding.Sequence, len(outFields))
 			for i, msColumn := range msColumns {
 				memToOut(columns, i, msColumn)
@@ -913,6 +913,9 @@ func (fs *fileStore) iterate(outFields []core.Field, ms *memstore, okayToReuseBu
 			more, err := onRow(bytemap.ByteMap(key), columns, nil)
 			return more, false, err
 		})
+		if walkErr != nil {
+			return offsetsBySource, walkErr
+		}
 	}
 
 	return offsetsBySource, nil
